@@ -75,6 +75,11 @@ fn shape_for(prop: &str, i: usize) -> Shape {
             s.n_res = 3 + v;
             s.p_barrier = 12;
             s.p_dep = 30;
+            // thread-local systems of an inner builder run once per inner dispatch too (whatever the controller)
+            s.tl_in_batch = v == 1 || v == 2;
+            if s.tl_in_batch {
+                s.p_tl = 18;
+            }
         }
         "C10" => {
             s.funnel = v == 1;
